@@ -2,7 +2,7 @@
 import fcntl, hashlib, json, os, re, shutil, subprocess, sys, time
 
 VERIF = os.path.abspath(os.path.join(os.path.dirname(os.path.abspath(__file__)), ".."))
-REPO = "/repo"
+REPO = os.environ.get("VERIF_REPO", "/repo")   # registered commands always use /repo; sweeps on a snapshot set VERIF_REPO (and edit go/go.mod's replace in their own worktree)
 LEAN = os.path.join(VERIF, "lean")
 GO = os.path.join(VERIF, "go")
 BUILD = os.path.join(VERIF, "build")
